@@ -132,6 +132,11 @@ EXTENSIONS = {
 }
 
 
+CROSS_CUTTING = ("Cross-cutting axes added by seeded rounds 7-9 (DESIGN.md 10.6): coinciding sizes (n == d == K); refused and fallback calls as events "
+                 "before the judged call, under shown / silenced / error warning filters (mc/failures.py); the transport axis - the judged estimator or "
+                 "objective after pickle, deepcopy and cloudpickle round trips, as a clone and as a clone given its hyperparameters again (mc/transport.py).")
+
+
 def main():
     props = [json.loads(l)["id"] for l in open(os.path.join(HERE, "properties.jsonl"))]
     checks = []
@@ -139,7 +144,7 @@ def main():
         if pid not in CHECKS:
             continue
         level, tech, text, note, ref = CHECKS[pid]
-        text = text + " " + EXTENSIONS.get(pid, "")
+        text = text + " " + EXTENSIONS.get(pid, "") + " " + CROSS_CUTTING
         checks.append({
             "property_id": pid,
             "quick_cmd": f"./check {pid} --tier quick",
